@@ -16,7 +16,8 @@ LEVEL = ("Static typestate of the chain mailbox on the worker's MIR: the mailbox
          "examination may be one match or a sequence of tests (while-let / if-let): the outcome of every value the mailbox can hold is computed by walking the "
          "switches that value decides."
          " Added (round 4): every receive on the mailbox stores its result into the examined mailbox variable - no second reader (R8)."
-         " Added (round 5): Pause is sent only from ChainProcess::pause called in the Pause arm, Resume only from ChainProcess::resume called in the Continue arm (R9).")
+         " Added (round 5): Pause is sent only from ChainProcess::pause called in the Pause arm, Resume only from ChainProcess::resume called in the Continue arm (R9)."
+         " Added (round 6): ChainProcess::pause / ::resume send on every path to Ok (R10); only finalisation empties the trace slot, so a flush cannot end a running chain (R11 = C11-R13).")
 EXPLANATION = ("CFG reachability / path counting (back edges cut) on the MIR of the worker closure and of the controller's command loop; anchors found "
                "by role (closure given to spawn_fifo that calls Chain::expanded_draw; closure that calls Receiver::recv_timeout on SamplerCommand).")
 TRUSTED = ["rustc nightly MIR", "nutsfacts extractor", "rules/c12.py", "std::sync::mpsc: recv blocks until a message or disconnection; try_recv never blocks"]
